@@ -61,7 +61,8 @@ def gen(prop, stream, tier, avoid):
             if rng.chance(0.35):
                 op["aL"] = [[rng.pick([-2.0, 0.0, 1.0, 3.5]), rng.pick([0.5, 2.0, 4.0])] for _ in range(3)][:shapes.DIRS[kind]]
         elif k == "grid":
-            op["g"] = rng.weighted([("generate", 2), ("weight_list", 3), ("weight_scalar", 1), ("read", 4), ("reset", 0.5), ("bumps", 1)])
+            op["g"] = rng.weighted([("generate", 2), ("weight_list", 3), ("weight_scalar", 1), ("read", 4), ("reset", 0.5), ("bumps", 1), ("weight_reject", 1)])
+            op["bad"] = rng.pick(["nonpositive_list", "nonpositive_list", "short_list", "scalar"])
             op["nu"], op["nv"] = rng.randint(1, 5), rng.randint(1, 5)
             if op["nu"] == op["nv"]:
                 op["nv"] += 1
@@ -454,6 +455,21 @@ def run(script, ctx):
                 grid.weight = op["w"]
                 gm["w"] = [op["w"]] * ((gm["nu"] + 1) * (gm["nv"] + 1))
                 ctx.log("grid_weight_scalar", op["w"])
+            elif gk == "weight_reject":
+                # a weight assignment the setter has to refuse, while the weighted grid is cached: afterwards every view of the grid
+                # (the weight vector, the weighted points) still shows the weights it had
+                cnt = (gm["nu"] + 1) * (gm["nv"] + 1)
+                bad = {"nonpositive_list": [-(i + 1.0) for i in range(cnt)], "short_list": [1.5] * (cnt - 1), "scalar": -op["w"]}[op.get("bad", "scalar")]
+                _ = grid.grid
+                try:
+                    grid.weight = bad
+                except (ValueError, TypeError) as e:
+                    ctx.fault("rejected_setter")
+                    ctx.log("grid_weight_reject", op.get("bad"), type(e).__name__)
+                else:
+                    ctx.fault("rejected_setter_accepted")
+                    ctx.log("grid_weight_reject_accepted", op.get("bad"))
+                    grid, gm = None, None          # what an accepted non-positive weight means is not modelled: start a new grid
             elif gk == "reset":
                 grid.reset()
                 gm = None
@@ -474,6 +490,11 @@ def run(script, ctx):
                     exp.append(row)
                 # multiset statement first (no index convention): each given weight used exactly once
                 gw = sorted(p[3] for r in got for p in r)
+                if gm["w"] is not None:
+                    vw = sorted(float(x) for x in grid.weight)
+                    if len(vw) != len(gw) or any(abs(a - b) > 1e-12 for a, b in zip(vw, gw)):
+                        ctx.fail("grid_inconsistent", "the weight vector %s is not the weights the grid points carry %s" % (_short(vw), _short(gw)),
+                                 view="grid.weight_vector", **gsig)
                 if any(abs(a - b) > 1e-12 for a, b in zip(gw, sorted(ws))):
                     ctx.fail("grid_inconsistent", "weighted grid does not use each given weight exactly once: grid weights %s, given %s" % (
                         _short(gw), _short(sorted(ws))), view="grid.weights_multiset", **gsig)
